@@ -92,7 +92,7 @@ func genRecordSpec(r *rand.Rand) genRecord {
 		}
 		ctype = pick(r, []string{"application/http", "application/http; msgtype=response", "Application/HTTP"})
 		if r.Intn(3) != 0 {
-			g.rt = pick(r, []int{2, 8, 4, 64, 128})
+			g.rt = pick(r, []int{2, 8, 4, 64, 128, 32, 2, 8}) // 32: a revisit whose block goes on after the protocol header
 		}
 	case x < 8:
 		body = pick(r, wfBodies)
@@ -160,6 +160,23 @@ func addDeclared(r *rand.Rand, g *genRecord, o ropts) {
 	}
 }
 
+// refHTTPHeaderLen: the lines up to and including the first line shorter than three bytes
+// (the empty line that ends a protocol header); found is false when the content has none
+func refHTTPHeaderLen(content []byte) (int, bool) {
+	pos := 0
+	for pos < len(content) {
+		i := bytes.IndexByte(content[pos:], '\n')
+		if i < 0 {
+			return len(content), false
+		}
+		pos += i + 1
+		if i+1 < 3 {
+			return pos, true
+		}
+	}
+	return len(content), false
+}
+
 func swapCase(s string) string {
 	b := []byte(s)
 	for i, c := range b {
@@ -206,6 +223,20 @@ func genBuild(r *rand.Rand, n int, tier string, out *bufio.Writer) {
 		addDeclared(r, &g, o)
 		if total := len(g.body); total > 0 && r.Intn(2) == 0 {
 			o.thr = pick(r, []int{1, total / 2, total - 1, total, total + 1})
+			if o.thr < 1 {
+				o.thr = 1
+			}
+		}
+		if lf := bytes.IndexByte(g.body, '\n'); lf > 0 && r.Intn(4) == 0 {
+			// the spill threshold falls on or next to a line feed (the delimiter the block parsers search for)
+			var lfs []int
+			for i, c := range g.body {
+				if c == '\n' {
+					lfs = append(lfs, i)
+				}
+			}
+			at := lfs[r.Intn(len(lfs))]
+			o.thr = at + pick(r, []int{0, 1, -1, -99, -100, -101})
 			if o.thr < 1 {
 				o.thr = 1
 			}
@@ -307,6 +338,10 @@ func runBuild(toks []string) (string, string) {
 	}
 	if pb, ok := rec.Block().(gowarc.PayloadBlock); ok && o.addDig == 1 && !supplied["warc-payload-digest"] && rt != 32 && !supplied["warc-segment-number"] {
 		if hb, ok := rec.Block().(gowarc.ProtocolHeaderBlock); ok {
+			// where the protocol header ends is a fact about the content, not about the library's split
+			if n, found := refHTTPHeaderLen(content); found && n != len(hb.ProtocolHeaderBytes()) {
+				return obs, fmt.Sprintf("FAIL:untruthful-payload-digest:the protocol header of the content is %d bytes, the block's header part is %d bytes", n, len(hb.ProtocolHeaderBytes()))
+			}
 			payload := blk[len(hb.ProtocolHeaderBytes()):]
 			if want := refDigest(o.alg, o.enc, []byte(payload)); h.Get("WARC-Payload-Digest") != want {
 				return obs, fmt.Sprintf("FAIL:untruthful-payload-digest:WARC-Payload-Digest %q, digest of the payload %q", h.Get("WARC-Payload-Digest"), want)
